@@ -1597,6 +1597,15 @@ def oracle_c12(case, ir):
                 want = min(want, u)
                 if abs(pj - float(want)) > 1e-9 * max(1.0, abs(float(want))):
                     return {"what": f"fixed_alternative_mean: eta_{j + 1} = {pj!r} but min(u, (N eta - S_j)/(N-j+1)) = {float(want)!r}"}
+        if test == "alpha_mart" and init.get("estim") == "optimal_comparison" and u != 1 and not init.get("class_kw"):
+            # eta = (1 - u(1-p2))/(2 - 2u) + u(1-p2) - 1/2 with p2 = rate_error_2 (default 1e-4; 0 is a legitimate value:
+            # "no two-vote overstatements"), clipped to [0, u]; alpha_mart then uses max(eta, mu_j)
+            p2 = kw["rate_error_2"] if "rate_error_2" in kw else F(1, 10 ** 4)
+            eta_def = min(u, max(F(0), (1 - u * (1 - p2)) / (2 - 2 * u) + u * (1 - p2) - F(1, 2)))
+            for j, pj in enumerate(par):
+                if pj == pj and abs(pj - float(eta_def)) > 1e-9 * max(1.0, abs(float(eta_def))):
+                    return {"what": f"optimal_comparison: eta_{j + 1} = {pj!r} but the definition with u = {float(u)!r}, "
+                                    f"rate_error_2 = {float(p2)!r} gives {float(eta_def)!r}"}
         for j, (xj, m) in enumerate(zip(x, mu)):
             pj = par[j]
             if math.isnan(pj) or math.isinf(pj):
@@ -1629,7 +1638,7 @@ def oracle_c12(case, ir):
                 continue   # the float total may land on either side of N*t: the final-sample rule is undecided
             if last and N is not None and sum(x) > N * t and test != "wald_sprt":
                 want = F(0)
-            if abs(ir["hist"][j] - float(want)) > 1e-7 * max(1.0, float(want)):
+            if abs(ir["hist"][j] - float(want)) > 1e-7 * max(1.0, abs(float(want))):
                 return {"what": f"{test}: history[{j}] = {ir['hist'][j]!r} but min(1, 1/T_j) = {float(want)!r} "
                                 f"with T_j the defining product (mu_j={float(m)}, parameter={float(pj)})"}
         if N is not None and test in ("alpha_mart", "betting_mart") and not dead and not exact_inputs(case) and \
